@@ -20,7 +20,7 @@ Proof.
   - destruct c; cbn; auto.
   - destruct (is_digit b).
     + destruct (_ <? v); [exact I|].
-      specialize (IH ((v * 10 + (b - c_0)) mod two64) true).
+      specialize (IH (v * 10 + (b - c_0)) true).
       destruct (lex_uint _ true l) as [[n r]| |]; cbn in *; auto.
     + destruct (b =? c_nul); [cbn; auto|]. destruct c; cbn; auto.
 Qed.
